@@ -109,6 +109,11 @@ func (d *Daemon) wait(t time.Duration) bool {
 
 func (d *Daemon) Kill() {
 	if d.Cmd != nil && d.Cmd.Process != nil {
+		if os.Getenv("GOCOVERDIR") != "" && d.Alive() {
+			// coverage diagnostic (tools/coverage.sh): let the daemon write its counters first
+			_ = d.Cmd.Process.Signal(syscall.SIGUSR1)
+			time.Sleep(300 * time.Millisecond)
+		}
 		_ = d.Cmd.Process.Kill()
 		d.wait(5 * time.Second)
 	}
